@@ -79,9 +79,18 @@ def dmin_of(sym):
 
 
 def craig_exact_psk(M, snr):
-    f = lambda th: math.exp(-snr * math.sin(math.pi / M) ** 2 / math.sin(th) ** 2)
-    val, err = integrate.quad(f, 0, math.pi - math.pi / M, epsabs=0,
-                              epsrel=1e-10, limit=400)
+    a = snr * math.sin(math.pi / M) ** 2
+    f = lambda th: math.exp(-a / math.sin(th) ** 2) if th > 0 else 0.0
+    upper = math.pi - math.pi / M
+    # the integrand rises from 0 to 1 around theta0 = asin(sqrt(a)); for large M
+    # that edge is very narrow, so the range is split around it
+    th0 = math.asin(min(1.0, math.sqrt(a)))
+    cuts = sorted({min(max(c * th0, 0.0), upper) for c in (0.1, 0.3, 0.6, 1.0, 2.0, 4.0, 10.0, 40.0)}
+                  | {0.0, upper, min(upper, math.pi / 2)})
+    val = 0.0
+    for lo, hi in zip(cuts[:-1], cuts[1:]):
+        if hi > lo:
+            val += integrate.quad(f, lo, hi, epsabs=0, epsrel=1e-11, limit=200)[0]
     return val / math.pi
 
 
